@@ -444,6 +444,8 @@ def check_c02(exe, tier, seed, verdict):
     twins, nlong = check_long_lines(exe, verdict, "C02")
     files = gen_random_files(seed, nfiles, 14 if tier == "quick" else 40) + twins
     acc = validate_prefix_traces(exe, files, verdict, "C02") + nlong
+    # section and key names that coincide with texts the library uses internally are names like any other
+    acc += check_marker_names(exe, verdict)
     # what a parsed file means is what the getters answer: random files read and then asked through every getter form (plain and
     # bracketed section names, names that are prefixes of each other, typed getters, listings, the extended getter), validated
     # against the root specification
@@ -457,6 +459,29 @@ def check_c02(exe, tier, seed, verdict):
            "model_universe_files": total, "replayed_files": n, "random_prefix_files_accepted": acc,
            "trusted_base": ["TLC 1.8.0", "gcc ASan/UBSan", "drv.c (public API only)"]}
     return cov, BASE_ASSUME, "model_checking"
+
+
+def check_marker_names(exe, verdict):
+    """conventional files whose section / key / value is a text the library uses internally (`_none_` marks "no section" and "no
+    value", `(null)` is what a formatting function prints for a missing string): Grammar!Meaning knows no special names"""
+    ok = 0
+    for nm, text, want in (
+            ("section-named-like-the-no-section-marker", "a=0\n[_none_]\nk=1\n[S]\nj=2\n", (["_none_", "S"], [("", "a", "0"), ("_none_", "k", "1"), ("S", "j", "2")])),
+            ("key-named-like-the-marker", "_none_=1\n[S]\n_none_=2\n", (["S"], [("", "_none_", "1"), ("S", "_none_", "2")])),
+            ("section-named-null", "[(null)]\nk=1\n[NULL]\nk=2\n", (["(null)", "NULL"], [("(null)", "k", "1"), ("NULL", "k", "2")]))):
+        p = core.ROOT + "/marker/%s.conf" % nm
+        out = core.run_cases(exe, [(nm, ["file %s %s" % (hx(p), hx(text)), "readfile 1 %s x3d x23" % hx(p), "dump 1", "free 1"])], jobs=1)[nm]
+        case = {"kind": "file", "lines": [codes(l) for l in text.splitlines()], "delim": [61], "comment": [35], "text": text}
+        if out["crash"]:
+            verdict.violation("C02:%s:crash" % nm, dict(case, crash=out["crash"]), "reading crashed on\n%s" % text)
+            continue
+        st = [e for e in out["ev"] if e["op"] == "dump"][0].get("st") or {}
+        got = (st.get("groups"), [(sec["g"] or "", k["k"], k["v"]) for sec in st.get("secs", []) for k in sec["keys"]])
+        if got != want:
+            verdict.violation("C02:%s" % nm, dict(case, got=got, want=want), "file\n%s\nsections and entries expected %s\nlibrary delivers %s" % (text, want, got))
+        else:
+            ok += 1
+    return ok
 
 
 def check_c13(exe, tier, seed, verdict):
